@@ -107,6 +107,26 @@ func jdocs() []jdoc {
 		ow[key] = k
 	}
 	ds = append(ds, jdoc{"[" + strings.Join(at, ",") + "]", aw}, jdoc{"{" + strings.Join(ot, ",") + "}", ow})
+	// strings and object keys: every control character, the characters JSON and
+	// JavaScript escape, the edges of the encoding forms (1/2/3/4 byte UTF-8, surrogate
+	// range neighbours, noncharacters, BOM, replacement character)
+	var runes []rune
+	for c := rune(0); c < 0x20; c++ {
+		runes = append(runes, c)
+	}
+	runes = append(runes, '"', '\\', '/', '<', '>', '&', '\'', 0x7f, 0x80, 0xa0, 0xff, 0x7ff, 0x800, 0x2028, 0x2029, 0xd7ff, 0xe000, 0xfeff, 0xfffd, 0xfffe, 0xffff, 0x10000, 0x1f600, 0x10ffff)
+	lit := func(s string) string { b, _ := json.Marshal(s); return string(b) }
+	var all strings.Builder
+	for _, c := range runes {
+		a, b := "a"+string(c)+"b", string(c)
+		all.WriteString(b)
+		ds = append(ds,
+			jdoc{lit(a), a},
+			jdoc{"[" + lit(b) + "," + lit(a) + "]", []any{b, a}},
+			jdoc{"{" + lit(a) + ":" + lit(b) + "}", map[string]any{a: b}},
+		)
+	}
+	ds = append(ds, jdoc{lit(all.String()), all.String()})
 	return ds
 }
 
@@ -125,6 +145,14 @@ func sameNumber(tok string, p poolNum) bool {
 
 func sameJSON(got, want any, path string) string {
 	switch w := want.(type) {
+	case string:
+		g, ok := got.(string)
+		if !ok {
+			return fmt.Sprintf("%s: expected the string %q, got %T %v", path, w, got, got)
+		}
+		if g != w {
+			return fmt.Sprintf("%s: the string %q is printed as a JSON string that reads %q", path, w, g)
+		}
 	case int:
 		n, ok := got.(json.Number)
 		if !ok {
@@ -303,7 +331,11 @@ func judgeJSON(stdout []byte, ds []jdoc, colour bool) (sig, msg string) {
 			return "json:invalid", fmt.Sprintf("output value %d (document %s) is not valid JSON: %v", i, d.text, err)
 		}
 		if m := sameJSON(v, d.want, "."); m != "" {
-			return "json:number-not-exact", fmt.Sprintf("document %s: %s", d.text, m)
+			sig := "json:number-not-exact"
+			if strings.Contains(m, "the string ") {
+				sig = "json:string-not-equal"
+			}
+			return sig, fmt.Sprintf("document %s: %s", d.text, m)
 		}
 	}
 	var extra any
